@@ -33,6 +33,16 @@ namespace adept {
   template <typename T>
   Array<1,T,false> 
   solve(const Array<2,T,false>& A, const Array<1,T,false>& b) {
+    // LAPACK is told that the system has A.dimension(0) equations
+    // and unknowns, so the operands must really have that shape
+    if (A.dimension(0) != A.dimension(1)) {
+      throw invalid_operation("Only square matrices can be used in solve"
+			      ADEPT_EXCEPTION_LOCATION);
+    }
+    else if (A.dimension(0) != b.dimension(0)) {
+      throw size_mismatch("Right-hand side of solve does not match size of matrix"
+			  ADEPT_EXCEPTION_LOCATION);
+    }
     Array<2,T,false> A_;
     Array<1,T,false> b_;
 
@@ -75,6 +85,14 @@ namespace adept {
   template <typename T>
   Array<2,T,false> 
   solve(const Array<2,T,false>& A, const Array<2,T,false>& B) {
+    if (A.dimension(0) != A.dimension(1)) {
+      throw invalid_operation("Only square matrices can be used in solve"
+			      ADEPT_EXCEPTION_LOCATION);
+    }
+    else if (A.dimension(0) != B.dimension(0)) {
+      throw size_mismatch("Right-hand side of solve does not match size of matrix"
+			  ADEPT_EXCEPTION_LOCATION);
+    }
     Array<2,T,false> A_;
     Array<2,T,false> B_;
     
@@ -119,6 +137,10 @@ namespace adept {
   Array<1,T,false>
   solve(const SpecialMatrix<T,SymmEngine<Orient>,false>& A,
 	const Array<1,T,false>& b) {
+    if (A.dimension() != b.dimension(0)) {
+      throw size_mismatch("Right-hand side of solve does not match size of matrix"
+			  ADEPT_EXCEPTION_LOCATION);
+    }
     SpecialMatrix<T,SymmEngine<Orient>,false> A_;
     Array<1,T,false> b_;
 
@@ -173,6 +195,10 @@ namespace adept {
   Array<2,T,false>
   solve(const SpecialMatrix<T,SymmEngine<Orient>,false>& A,
 	const Array<2,T,false>& B) {
+    if (A.dimension() != B.dimension(0)) {
+      throw size_mismatch("Right-hand side of solve does not match size of matrix"
+			  ADEPT_EXCEPTION_LOCATION);
+    }
     SpecialMatrix<T,SymmEngine<Orient>,false> A_;
     Array<2,T,false> B_;
 
